@@ -196,6 +196,7 @@ type pendingReq struct {
 	issued      int
 	hintURI     string
 	blockedOnce bool
+	noMSN       bool // plain request (no _HLS_msn): answered at once with the current playlist
 }
 
 // E2Result is the outcome of one C06 scenario.
@@ -354,6 +355,9 @@ func RunC06(sc Script, reqs []ReqSpec, bursts map[int]int, tmpBase string, exclu
 				continue
 			}
 			v := availability(st, pr.m, pr.hasP, pr.p)
+			if pr.noMSN {
+				v = vAvail
+			}
 			if done {
 				r := pr.p0.Resp()
 				if r.Panic != "" {
@@ -409,7 +413,7 @@ func RunC06(sc Script, reqs []ReqSpec, bursts map[int]int, tmpBase string, exclu
 						res.add("C06", "%s: response is not the playlist of the state at which it was released\n--- response\n%s--- expected\n%s", where, body, want)
 						return false
 					}
-					if v != vEither {
+					if v != vEither && !pr.noMSN {
 						if m := containsMP(string(r.Body), pr.m, pr.hasP, pr.p); m != "" && !pr.delta {
 							res.add("C06", "%s: %s", where, m)
 							return false
@@ -518,6 +522,8 @@ func RunC06(sc Script, reqs []ReqSpec, bursts map[int]int, tmpBase string, exclu
 					res.Classes["hint:"+rs.Kind]++
 				default:
 					switch rs.M {
+					case "none":
+						pr.noMSN = true
 					case "expired":
 						pr.m = st.first - 1
 					case "first":
@@ -564,19 +570,30 @@ func RunC06(sc Script, reqs []ReqSpec, bursts map[int]int, tmpBase string, exclu
 						res.Excluded++
 						continue
 					}
-					res.Classes[class]++
-					q := "_HLS_msn=" + strconv.FormatInt(pr.m, 10)
+					if !pr.noMSN {
+						res.Classes[class]++
+					}
+					var qs []string
+					if rs.Extra != "" {
+						qs = append(qs, rs.Extra)
+					}
+					if pr.noMSN {
+						pr.hasP = false
+						res.Classes["M=none,skip="+rs.Skip]++
+					} else {
+						qs = append(qs, "_HLS_msn="+strconv.FormatInt(pr.m, 10))
+					}
 					if pr.hasP {
-						q += "&_HLS_part=" + strconv.FormatInt(pr.p, 10)
+						qs = append(qs, "_HLS_part="+strconv.FormatInt(pr.p, 10))
 					}
 					if rs.Skip != "" {
-						q += "&_HLS_skip=" + rs.Skip
+						qs = append(qs, "_HLS_skip="+rs.Skip)
 						pr.delta = rs.Skip == "YES" || rs.Skip == "v2"
 					}
-					if rs.Extra != "" {
-						q = rs.Extra + "&" + q
+					pr.path = s + "_stream.m3u8"
+					if len(qs) > 0 {
+						pr.path += "?" + strings.Join(qs, "&")
 					}
-					pr.path = s + "_stream.m3u8?" + q
 				}
 				pr.p0 = drv.Go(pr.path)
 				pend = append(pend, pr)
